@@ -84,7 +84,9 @@ fn export_inodes(exp: &Path) -> BTreeSet<u64> {
 pub enum EOp {
     /// lookup(parent slot, name) — a successful lookup puts the node into the next free slot
     Lookup(u8, u8),
-    /// create(parent slot, name, flag kind 0: O_WRONLY, 1: |O_TRUNC, 2: |O_EXCL)
+    /// create(parent slot, name, flag kind 0: O_WRONLY, 1: |O_TRUNC, 2: |O_EXCL, 3: O_PATH, 4: O_RDONLY|O_DIRECTORY,
+    /// 5: O_WRONLY|O_NOFOLLOW|O_NONBLOCK) - kinds 3..5 are flag words a Linux kernel never puts into FUSE_CREATE but a
+    /// virtio-fs guest can
     Create(u8, u8, u8),
     Mkdir(u8, u8),
     Mknod(u8, u8),
@@ -99,6 +101,9 @@ pub enum EOp {
     /// probes of a node slot: 0 getattr, 1 read everything (file data / link target / listing+), 2 write one byte,
     /// 3 chmod, 4 truncate, 5 set times, 6 chown, 7 setxattr, 8 open(O_TRUNC), 9 access+statfs
     Probe(u8, u8),
+    /// dropping lookup references: kind 0 forget(node of the slot, 1), 1 forget(node, u64::MAX),
+    /// 2 batch_forget[(node, 1)], 3 batch_forget[(node, u64::MAX)], 4 batch_forget[(node, 1), (node, u64::MAX), (root, u64::MAX)]
+    Forget(u8, u8),
 }
 
 pub const N_OK_FILE: u8 = 0;
@@ -217,7 +222,7 @@ impl EWorld {
             EOp::Lookup(_, n) => self.bad_lookup[*n as usize],
             EOp::Create(_, n, _) | EOp::Mkdir(_, n) | EOp::Mknod(_, n) | EOp::Symlink(_, n, _) | EOp::Unlink(_, n) | EOp::Rmdir(_, n) | EOp::Link(_, _, n) => self.bad_mutate[*n as usize],
             EOp::Rename(_, n, _, n2) => self.bad_mutate[*n as usize] || self.bad_mutate[*n2 as usize],
-            EOp::Probe(..) => false,
+            EOp::Probe(..) | EOp::Forget(..) => false,
         };
         let before = if forbidden { Some(snap(&self.w.exp)) } else { None };
         let subj = &self.w.subj as *const Subject;
@@ -250,11 +255,27 @@ impl EWorld {
             EOp::Create(p, n, fk) => {
                 let parent = self.slot(p)?;
                 let name = self.names[n as usize].clone();
-                let flags = libc::O_WRONLY as u32 | match fk { 1 => libc::O_TRUNC as u32, 2 => libc::O_EXCL as u32, _ => 0 };
+                let flags = match fk {
+                    1 => (libc::O_WRONLY | libc::O_TRUNC) as u32,
+                    2 => (libc::O_WRONLY | libc::O_EXCL) as u32,
+                    3 => libc::O_PATH as u32,
+                    4 => (libc::O_RDONLY | libc::O_DIRECTORY) as u32,
+                    5 => (libc::O_WRONLY | libc::O_NOFOLLOW | libc::O_NONBLOCK) as u32,
+                    _ => libc::O_WRONLY as u32,
+                };
                 match cl.create(subj, parent, &name, flags, 0o644, 0o022) {
                     Ok((e, fh, _)) => {
                         self.export_inos = export_inodes(&self.w.exp);
                         self.note_entry("create", &e);
+                        // what the handle denotes must be inside the export as well
+                        if !self.w.zero_message_open() {
+                            if let Ok(a) = cl.getattr(subj, e.nodeid, Some(fh)) {
+                                self.note_attr("create-handle", &a);
+                            }
+                            if let Ok(d) = cl.read(subj, e.nodeid, fh, 0, 4096, 0) {
+                                self.note_data("create-handle", &d);
+                            }
+                        }
                         let _ = cl.write(subj, e.nodeid, fh, 0, b"W", 0, 0);
                         let _ = cl.release(subj, e.nodeid, fh, 0, false);
                         "ok".into()
@@ -331,6 +352,17 @@ impl EWorld {
                 let b = self.slot(p2)?;
                 let (x, y) = (self.names[n as usize].clone(), self.names[n2 as usize].clone());
                 format!("errno{}", cl.rename(subj, a, &x, b, &y, 0))
+            }
+            EOp::Forget(s, kind) => {
+                let node = self.slot(s)?;
+                let r = match kind {
+                    0 => cl.forget(subj, node, 1),
+                    1 => cl.forget(subj, node, u64::MAX),
+                    2 => cl.batch_forget(subj, &[(node, 1)]),
+                    3 => cl.batch_forget(subj, &[(node, u64::MAX)]),
+                    _ => cl.batch_forget(subj, &[(node, 1), (node, u64::MAX), (1, u64::MAX)]),
+                };
+                format!("errno{}", r.errno)
             }
             EOp::Probe(s, kind) => {
                 let node = self.slot(s)?;
@@ -496,6 +528,7 @@ fn describe(ew: &EWorld, op: &EOp) -> String {
         EOp::Link(s, p, n) => format!("link(slot{} -> slot{}, {:?})", s, p, nm(n)),
         EOp::Rename(p, n, p2, n2) => format!("rename(slot{}, {:?} -> slot{}, {:?})", p, nm(n), p2, nm(n2)),
         EOp::Probe(s, k) => format!("probe(slot{}, kind {})", s, k),
+        EOp::Forget(s, k) => format!("forget(slot{}, kind {})", s, k),
     }
 }
 
@@ -506,7 +539,7 @@ pub fn alphabet(nnames: u8) -> (Vec<EOp>, Vec<EOp>) {
         for n in 0..nnames {
             all.push(EOp::Lookup(p, n));
             if p <= 2 {
-                for fk in 0..3 {
+                for fk in 0..6 {
                     all.push(EOp::Create(p, n, fk));
                 }
                 all.push(EOp::Mkdir(p, n));
@@ -531,6 +564,13 @@ pub fn alphabet(nnames: u8) -> (Vec<EOp>, Vec<EOp>) {
             all.push(EOp::Probe(s, k));
         }
     }
+    // the client drops references (also ones it does not hold, also the root's): what ".." and names resolve to
+    // afterwards must still be inside the export
+    for s in 0..3u8 {
+        for k in 0..5u8 {
+            all.push(EOp::Forget(s, k));
+        }
+    }
     let mut seen = BTreeSet::new();
     all.retain(|o| seen.insert(format!("{:?}", o)));
     // operations that change what later requests can reach: lookups (fill slots), symlink/dir creation, renames of directories
@@ -541,6 +581,7 @@ pub fn alphabet(nnames: u8) -> (Vec<EOp>, Vec<EOp>) {
             EOp::Symlink(p, n, _) => *p == 0 && *n == N_NEW,
             EOp::Mkdir(p, n) => *p == 0 && *n == N_NEW,
             EOp::Rename(p, n, p2, n2) => (*p == 1 && *n == 2 && *p2 == 0 && *n2 == N_NEW) || (*p == 0 && *n == 1 && *p2 == 0 && *n2 == N_NEW),
+            EOp::Forget(s, k) => (*s == 0 && *k >= 3) || (*s == 1 && *k == 1),
             _ => false,
         })
         .cloned()
@@ -832,6 +873,18 @@ pub fn c06(args: &Args) -> Report {
                     run.seq(cfg, &[*a, *b]);
                 }
                 idx += 1;
+            }
+        }
+        // forgotten references, then ".." walks: [forget kind on root / d, lookup(d or d/dd, ".."), anything on the node that
+        // lookup returned (slot 3) or a further ".." from it]
+        for f in all.iter().filter(|o| matches!(o, EOp::Forget(..))) {
+            for p in [1u8, 2] {
+                for c in all.iter().filter(|o| matches!(o, EOp::Lookup(3, _) | EOp::Probe(3, _) | EOp::Lookup(1, 5) | EOp::Lookup(2, 5))) {
+                    if run.rep.mine(idx) && !run.rep.over_budget() {
+                        run.seq(cfg, &[*f, EOp::Lookup(p, 5), *c]);
+                    }
+                    idx += 1;
+                }
             }
         }
         // depth 3: setup x setup x everything
